@@ -77,7 +77,7 @@ class RecSandbox(core.Sandbox):
     def run(self, argv, plan=None, cwd="", tz="UTC", timeout=60.0, config=None):
         plan = plan or {}
         res = super().run(argv, plan, cwd, tz, timeout, config)
-        if config is not None:
+        if config is not None or plan.get("config"):
             self.ctx.bump("user_configuration_file", configured=1, fired=1)
         ctx = self.ctx
         ctx.execs += 1
@@ -273,7 +273,7 @@ def generic_shrinks(case):
                 c = copy.deepcopy(case)
                 getp(c, ref)[key] = []
                 yield c
-        for key in ("out_accept",):
+        for key in ("out_accept", "config"):
             if p.get(key):
                 c = copy.deepcopy(case)
                 getp(c, ref)[key] = None
